@@ -153,6 +153,16 @@ func (g *FuncGen) execCall(instr ssa.Instruction, c *ssa.CallCommon, v ssa.Value
 			callee = mc.Fn.(*ssa.Function)
 		}
 	}
+	g.closureBindings = nil
+	if mc, ok := c.Value.(*ssa.MakeClosure); ok && callee != nil {
+		// the captured variables of a closure are bound to the addresses of the caller's cells
+		g.closureBindings = map[string]sval{}
+		for i, fv := range callee.FreeVars {
+			if i < len(mc.Bindings) {
+				g.closureBindings["&"+fv.Name()] = sval{t: g.argTerm(mc.Bindings[i]), typ: fv.Type(), kind: "val"}
+			}
+		}
+	}
 	if callee == nil {
 		g.assumptions["call of a function value in "+g.key+": treated as having no effect on modelled memory"] = true
 		g.defaultCall("func-value", true, argVals, args, sig, v, pos, nil)
@@ -327,12 +337,17 @@ func (g *FuncGen) applyContract(callee *ssa.Function, ct *Contract, sf *SpecFile
 	if sfp, ok := g.env.byPath[sf.PkgPath]; ok && (callee == nil || ct.Extern) {
 		pkg = sfp.Types
 	}
+	bindings := g.closureBindings
+	g.closureBindings = nil
 	mk := func(st, old *State) *SpecCtx {
 		cx := &SpecCtx{g: g, st: st, old: old, vars: map[string]sval{}, pkg: pkg, spec: sf, fn: callee}
 		for i, n := range names {
 			if i < len(args) {
 				cx.vars[n] = sval{t: args[i], typ: ptypes[i], kind: "val"}
 			}
+		}
+		for n, v := range bindings {
+			cx.vars[n] = v
 		}
 		return cx
 	}
@@ -872,6 +887,12 @@ func (g *FuncGen) execGhost(at string, cx *SpecCtx) {
 			g.update(loc.comp, fmt.Sprintf("(store %s %s %s)", g.get(g.st, loc.comp), loc.ref, N))
 			g.assumptions["ghost state updated by definitional ghost assignment in "+g.key] = true
 			continue
+		}
+		if id, ok := gs.Target.(*EIdent); ok {
+			if key, _, isGV := g.ghostVar(id.Name); isGV {
+				g.update(key, cx.eval(gs.Value).t)
+				continue
+			}
 		}
 		locs := cx.locations(gs.Target)
 		if len(locs) != 1 {
